@@ -514,6 +514,29 @@ func channelFacts() {
 		})
 	}
 	defBool("ch_enqueueWaitsCtx", enqCtx)
+	// reconnect assigns c.gorumsStream only when the new stream has been created (the receiver never finds a nil stream)
+	keeps := false
+	if f := p.findFunc("channel.go", "channel.reconnect"); f != nil {
+		assigns := 0
+		inOK := 0
+		ast.Inspect(f, func(n ast.Node) bool {
+			if as, ok := n.(*ast.AssignStmt); ok {
+				for _, l := range as.Lhs {
+					if p.src(l) == "c.gorumsStream" {
+						assigns++
+					}
+				}
+			}
+			return true
+		})
+		for _, i := range p.ifsWithBodyMentioning(f, "c.gorumsStream = ") {
+			if strings.Contains(p.src(i.Cond), "err == nil") {
+				inOK++
+			}
+		}
+		keeps = assigns == 1 && inOK == 1
+	}
+	defBool("ch_reconnectKeepsStream", keeps)
 	defBool("ch_replaceCancels", replaceCancels)
 	defBool("ch_markBeforeSend", markBeforeSend)
 	defBool("ch_cancelSkipsUnwritten", skipsUnwritten)
